@@ -306,7 +306,8 @@ class kFlowDecompCycles(walkmodel.AbstractWalkModelDiGraph):
         non_empty_walks = []
         non_empty_weights = []
         for walk, weight in zip(solution["walks"], solution["weights"]):
-            if len(walk) > 1:
+            # for node-weighted input a single node is a genuine (weighted) walk; an empty one has no node at all
+            if len(walk) > (0 if self.flow_attr_origin == "node" else 1):
                 non_empty_walks.append(walk)
                 non_empty_weights.append(weight)
 
